@@ -27,6 +27,7 @@ dialects ends in the same state and returns related tokens (`step32`: comment sc
 tables `switch32`, `walk32`), so the loops run in lockstep (`lockstep32`); on top of C15.
 -/
 import GopModel.Lemmas.ScanC32e
+import GopModel.Lemmas.ScanSpecials
 namespace GopModel.Scan.C32
 open GopModel.Generated GopModel.Scan
 
